@@ -301,6 +301,7 @@ def run_check(check_id, tier, seed, replay=None, limit=None):
         "samples": agg.samples or [{"note": "no sample produced"}],
         "monitor_counters": dict(sorted(agg.counters.items())),
         "distinct_sets": {k: len(v) for k, v in sorted(agg.sets.items())},
+        "set_members": {k: sorted(map(str, v))[:60] for k, v in sorted(agg.sets.items()) if len(v) <= 60},
         "inconclusive_cases": len(agg.inconclusive),
         "known_finding_witnesses": len(agg.known),
         "workers": njobs,
